@@ -23,6 +23,7 @@ RULE = (
     'equal to numpy.bincount of the reference pixels (robust samplings) and always summing to the number of samples. '
     'non-trivial = >= 2 dimensions with distinct sizes, or an outside point with exactly one offending dimension, or a '
     'HEALPix case with >= 8 directions.'
+    ' Also: short-lived landscapes (one of another resolution is used and dropped just before the one under test is created); timelines of 65536-140001 samples.'
 )
 ASSUMPTIONS = [
     'exact half-integer coordinates are not generated (nearest is ambiguous there; the docstring documents strict inequalities)',
